@@ -117,6 +117,7 @@ def run(ctx):
             phase2.append((idx, "reparse", "load d " + ki["bytes"]))
             phase2.append((idx, "remarshal", "load m " + ki["bytes"]))
             phase2.append((idx, "swap", "swap " + km["be"]))
+            phase2.append((idx, "remarshal_be", "load m " + km["be"]))      # parsed in the other byte order and serialised again WITHOUT being read
     spec_lines = [(idx, k, l) for idx, k, l in phase2 if l.startswith("spec1")]
     impl_lines = [(idx, k, l) for idx, k, l in phase2 if not l.startswith("spec1")]
     sres, _ = vlib.run_lines(info["model"], [l for _, _, l in spec_lines])
@@ -150,6 +151,11 @@ def run(ctx):
             d = r.split("msgs=", 1)[1] if "msgs=" in r else r
             if d != want_bytes:
                 rep.violation("re-serialising the parsed message is not byte-identical: %s" % p[:200], {"input": p, "impl_build": i, "impl_remarshal": r})
+        elif kind == "remarshal_be":
+            d = r.split("msgs=", 1)[1] if "msgs=" in r else r
+            if "corrupted=0" not in r or d != kv(m)["be"]:
+                rep.violation("a message received in the other byte order and serialised again without being read is not byte-identical: %s\n got  %s\n want %s" % (p[:200], d[:300], kv(m)["be"][:300]),
+                              {"input": p, "cmd": l, "impl_remarshal": r, "be": kv(m)["be"]})
         elif kind == "swap":
             if not r.startswith("dump="):
                 rep.violation("the other-byte-order encoding of a built message is rejected: %s -> %s" % (p[:200], r[:100]), {"input": p, "be": kv(m)["be"], "impl": r})
